@@ -75,6 +75,7 @@ int main(int argc, char **argv) {
     const int style_mix = r.below(6);  // 5 = mixed
     // Build geometry by hand: POSITION, NORMAL, TAG.
     vf::Geo g;
+    int idx_p = 0, idx_n = 1, idx_t = 2;
     g.is_mesh = !point_cloud;
     g.family = topo.name;
     const size_t nvals = per_corner ? topo.tris.size() * 3 : topo.nverts;
@@ -103,17 +104,25 @@ int main(int argc, char **argv) {
         g.npoints = topo.nverts;
         if (!point_cloud) g.faces = topo.tris;
       }
-      g.atts.push_back(p); g.atts.push_back(n); g.atts.push_back(t);
+      // Attribute order is part of the input: NORMAL may come before POSITION (the position encoder is then created
+      // after the normal encoder has asked for it as parent).
+      const int orders[6][3] = {{0, 1, 2}, {0, 1, 2}, {1, 0, 2}, {2, 0, 1}, {1, 2, 0}, {2, 1, 0}};  // slot of p, n, t
+      const int *ord = orders[r.below(6)];
+      idx_p = ord[0]; idx_n = ord[1]; idx_t = ord[2];
+      g.atts.resize(3);
+      g.atts[idx_p] = p; g.atts[idx_n] = n; g.atts[idx_t] = t;
+      g.pos_att = idx_p;
     }
     vf::EncOpts o = vf::GenOpts(r, g, false);
-    o.qbits = {-1, q, -1};
-    if (!int_pos && r.below(4) != 0) o.qbits[0] = static_cast<int>(r.range(4, 20));  // quantized positions enable the geometric predictor
+    o.qbits.assign(3, -1);
+    o.qbits[idx_n] = q;
+    if (!int_pos && r.below(4) != 0) o.qbits[idx_p] = static_cast<int>(r.range(4, 20));  // quantized positions enable the geometric predictor
     if (!point_cloud && o.method == 1 && false) {}
     if (point_cloud) o.method = 0;  // kd-tree quantizes normals uniformly: outside this property
     // prediction: difference or geometric normal for the NORMAL attribute; anything admissible for the others
     const int np[] = {-100, -100, PREDICTION_DIFFERENCE, MESH_PREDICTION_GEOMETRIC_NORMAL};
-    o.pred[1] = np[r.below(4)];
-    if (!o.expert) { o.pred[0] = o.pred[0] == MESH_PREDICTION_GEOMETRIC_NORMAL ? -100 : o.pred[0]; o.pred[2] = -100; }
+    o.pred[idx_n] = np[r.below(4)];
+    if (!o.expert) { o.pred[idx_p] = o.pred[idx_p] == MESH_PREDICTION_GEOMETRIC_NORMAL ? -100 : o.pred[idx_p]; o.pred[idx_t] = -100; }
     vf::AvoidHugeEntropyTables(g, &o);
     const std::string desc = topo.name + (point_cloud ? " pc" : " mesh") + " nvals=" + std::to_string(nvals) + " q=" + std::to_string(q) + (per_corner ? " per-corner" : " per-vertex") + (int_pos ? " int-pos" : " float-pos") +
                              " style=" + std::to_string(style_mix) + " | " + o.Describe();
@@ -194,7 +203,8 @@ int main(int argc, char **argv) {
     rep.count("normals_judged", judged);
     rep.count("normals_tiny_input", tiny);
     rep.count("octahedral_coordinates_checked", oct_checked);
-    rep.count(std::string("positions/") + (int_pos ? "integer" : o.qbits[0] > 0 ? "quantized-float" : "float"));
+    rep.count(std::string("positions/") + (int_pos ? "integer" : o.qbits[idx_p] > 0 ? "quantized-float" : "float"));
+    rep.count(std::string("attribute_order/") + (idx_n < idx_p ? "normal-before-position" : "position-first"));
     rep.held(vf::HashBytes(er.bytes.data(), er.bytes.size()), judged > 0);
     if (r.below(300) == 0) rep.sample("{\"case\":\"" + vf::JsonEscape(desc) + "\",\"worst_angle_over_bound\":" + std::to_string(worst) + "}");
   });
